@@ -32,6 +32,9 @@ func forkAndExecInChild(r *Runner, argv0 *byte, argv, env []*byte, workdir, host
 	// similar to exec_linux, avoid side effect by shuffling around
 	fd, nextfd := prepareFds(r.Files)
 
+	// pid of the launcher, for the traced child to notice that its tracer is already gone
+	ppid, _, _ := syscall.RawSyscall(syscall.SYS_GETPID, 0, 0, 0)
+
 	flag := r.CloneFlags & UnshareFlags
 	if r.SyncFunc == nil && !(r.StopBeforeSeccomp || (r.Seccomp != nil && r.Ptrace)) && flag&syscall.CLONE_NEWUSER != syscall.CLONE_NEWUSER {
 		flag |= syscall.CLONE_VM | syscall.CLONE_VFORK
@@ -105,6 +108,23 @@ func forkAndExecInChild(r *Runner, argv0 *byte, argv, env []*byte, workdir, host
 	pid, _, err1 = syscall.RawSyscall(syscall.SYS_GETPID, 0, 0, 0)
 	if err1 != 0 {
 		childExitError(pipe, LocGetPid, err1)
+	}
+
+	// a traced child must not outlive its tracer, not even in the window before the tracer has
+	// seen the first stop and set PTRACE_O_EXITKILL (it would stay stopped forever, or run the
+	// program unsupervised once continued)
+	if r.Ptrace {
+		_, _, err1 = syscall.RawSyscall(syscall.SYS_PRCTL, syscall.PR_SET_PDEATHSIG, uintptr(syscall.SIGKILL), 0)
+		if err1 != 0 {
+			childExitError(pipe, LocPtraceMe, err1)
+		}
+		if r.CloneFlags&unix.CLONE_NEWPID == 0 {
+			r1, _, _ = syscall.RawSyscall(syscall.SYS_GETPPID, 0, 0, 0)
+			if r1 != ppid {
+				// the tracer died before the death signal was armed
+				childExitError(pipe, LocPtraceMe, syscall.ESRCH)
+			}
+		}
 	}
 
 	// keep capabilities through set_uid / set_gid calls (make sure we can use unshare cgroup), later dropped
